@@ -72,8 +72,8 @@ func c05Scenarios() []scenario {
 	add(c05p{kind: "slow", chunks: []string{"\x1b", "[", "A", "\x1bO", "B", "c"}, expect: "^vc"})
 	// mixed event kinds (key, mouse, paste brackets, focus), all through the same pipeline, with
 	// a slow and with a polling consumer: M = mouse, P/p = paste start/end, F/f = focus in/out
-	mixed := []string{"ab", "\x1b[<0;2;1M", "c\x1b[200~", "de\x1b[201~", "\x1b[I", "x\x1b[O", "\x1b[<0;3;2m", "ghijkl"}
-	add(c05p{kind: "slow", chunks: mixed, expect: "abMcPdepFxfMghijkl", modes: true})
+	mixed := []string{"ab", "\x1b[<0;2;1M", "c\x1b[200~", "de\x1b[201~", "\x1b[I", "x\x1b[O", "\x1b[<0;3;2m", "gh\x1b[<32;0;-3M", "ijkl"} // the last report: pointer left of / above the window
+	add(c05p{kind: "slow", chunks: mixed, expect: "abMcPdepFxfMghMijkl", modes: true})
 	add(c05p{kind: "free", chunks: []string{"a\x1b[<0;2;1M", "\x1b[200~b\x1b[201~", "\x1b[I\x1b[O", "c"}, expect: "aMPbpFfc", modes: true})
 	for _, pre := range []int{8, 9, 10} {
 		add(c05p{kind: "fullposts", k: 1, posters: 2, posts: 2, prefill: pre})
